@@ -678,7 +678,12 @@ func (env *Env) index(e ast.Expr, base, idx tv) (tv, error) {
 		mvv := ex.get(env.st, compMapVal(u), arraySort(SInt, arraySort(ks, vs)))
 		md := ex.get(env.st, compMapDom(u), arraySort(SInt, arraySort(ks, SBool)))
 		has := and(not(eq(base.t, intLit(0))), sel(sel(md, base.t), idx.t))
-		return tv{t: ite(has, sel(sel(mvv, base.t), idx.t), sc.zero(u.Elem())), typ: u.Elem()}, nil
+		val := ite(has, sel(sel(mvv, base.t), idx.t), sc.zero(u.Elem()))
+		if isPointerLike(u.Elem()) {
+			// heap well-formedness: a reference stored in the heap was allocated before that heap state
+			sc.axiom(app(SBool, "<", val, ex.get(env.st, compAlloc, SInt)))
+		}
+		return tv{t: val, typ: u.Elem()}, nil
 	case *types.Slice:
 		es := sc.sortOf(u.Elem())
 		arr := ex.get(env.st, compElem(u.Elem()), arraySort(SInt, arraySort(SInt, es)))
@@ -823,7 +828,11 @@ func (env *Env) call(x *ast.CallExpr) (tv, error) {
 		}
 		ks := sc.sortOf(mt.Key())
 		md := ex.get(env.st, compMapDom(mt), arraySort(SInt, arraySort(ks, SBool)))
-		return tv{t: and(not(eq(m.t, intLit(0))), sel(sel(md, m.t), k.t))}, nil
+		hasT := and(not(eq(m.t, intLit(0))), sel(sel(md, m.t), k.t))
+		// a map holding a key has length >= 1 (fact about every concrete map state)
+		ml := ex.get(env.st, compMapLen(mt), arraySort(SInt, SInt))
+		sc.axiom(implies(hasT, app(SBool, ">=", sel(ml, m.t), intLit(1))))
+		return tv{t: hasT}, nil
 	case "len":
 		a, err := argv(0)
 		if err != nil {
